@@ -22,8 +22,9 @@ pub fn script_to_ts(script: &serde_json::Value, nv: usize) -> (String, HashMap<u
             "ord" => { ids.insert(v, next); next += 1; s += &format!("x{v} = order(\"p{v}\");\n"); }
             "tord" => { ids.insert(v, next); next += 1; s += &format!("try {{ x{v} = order(\"p{v}\"); }} catch (e) {{ x{v} = \"caught\"; }}\n"); }
             // the value the combinator result is fulfilled with is observed too
-            "await" => s += &if v as usize > nv { "wv = await w;\n".to_string() } else { format!("await {};\n", name(v)) },
-            "tawait" => s += &if v as usize > nv { "try { wv = await w; } catch (e) { w = \"caught\"; }\n".to_string() } else { format!("try {{ await {0}; }} catch (e) {{ {0} = \"caught\"; }}\n", name(v)) },
+            "await" => s += &if v as usize > nv { "if (w !== \"caught\") wv = await w;\n".to_string() } else { format!("await {};\n", name(v)) },
+            // (a combinator variable that already holds the marker "caught" is no promise any more: awaiting it again must not overwrite wv)
+            "tawait" => s += &if v as usize > nv { "try { if (w !== \"caught\") wv = await w; } catch (e) { w = \"caught\"; }\n".to_string() } else { format!("try {{ await {0}; }} catch (e) {{ {0} = \"caught\"; }}\n", name(v)) },
             "comb" => {
                 // inputs: the variables ordered so far, in variable order
                 let ins: Vec<String> = (1..=nv as u64).filter(|v| ids.contains_key(v)).map(|v| format!("x{v}")).collect();
